@@ -416,6 +416,42 @@ theorem remock_after_reset {env : Env} (he : EnvOk env) (ops : List Op) (b key k
   intro id hc
   exact cn1 key id (by rw [← c1]; exact hc)
 
+/-- **A refused (re-)mock installs nothing.**  When `Apply` panics — the origin placeholder is refused inside `replaceFunc`, after
+    the previous patch has been taken off — the target has its pristine bytes: neither the new jump nor the jump of an earlier,
+    already reset mock is (re-)installed. -/
+theorem refused_apply_leaves_pristine {env : Env} (he : EnvOk env) {s : St} (hi : Inv env s) (o key k : Nat) (origin : Option Nat) (e : Err)
+    (h : (doApply env s o key k origin).2 = some e) :
+    (doApply env s o key k origin).1.text (key % 1000) = env.pristine (key % 1000) := by
+  obtain ⟨g1, _, g3, _, _⟩ := getMocker_spec hi o key
+  obtain ⟨o1, _, _, _, _, o6⟩ := setOrigin_spec g1 (getMocker s o key).2 origin
+  have ht : ((setOrigin (getMocker s o key).1 (getMocker s o key).2 origin).mockers (getMocker s o key).2).target = key % 1000 := by
+    rw [(o6 _).1, g3]
+  obtain ⟨_, c2, c3, _, _⟩ := applyCb_spec he o1 (getMocker s o key).2 k
+  have h' : (applyImp env (setOrigin (getMocker s o key).1 (getMocker s o key).2 origin) (getMocker s o key).2 (.cb k)).2 ≠ none := by
+    rw [← c3]; intro hn; rw [show (applyCb env _ _ k).2 = (doApply env s o key k origin).2 from rfl, h] at hn; cases hn
+  have a := (applyImp_spec he o1 (getMocker s o key).2 (.cb k)).2.2.2.1 h'
+  rw [ht] at a
+  show (applyCb env _ _ _).1.text _ = _
+  rw [c2]; exact a
+
+/-- **A function shorter than the entry jump is refused every time it is offered**, whatever the patch table holds (a refused
+    origin is registered too), and nothing is written to it or to anything else. -/
+theorem too_short_always_refused {env : Env} (he : EnvOk env) {s : St} (hi : Inv env s) (f : Nat) (to : BitVec 64) (tramp : Option Nat)
+    (hshort : env.funcSize f ≤ 13) :
+    (replaceFunc env s f to tramp).2 = .error .tooSmall ∧ (replaceFunc env s f to tramp).1.text f = env.pristine f ∧
+    ∀ x, x ≠ f → (replaceFunc env s f to tramp).1.text x = s.text x := by
+  obtain ⟨_, r2, r3, _⟩ := replaceFunc_spec he hi f to tramp
+  refine ⟨?_, r2, r3⟩
+  unfold replaceFunc
+  simp only [C02L.jump_length]
+  have : 13 ≥ env.funcSize f := hshort
+  simp [this]
+
+/-- **`Unpatch` of a function that carries no patch changes nothing** (monkey.go:150 `unpatchValue`): in particular not the code of
+    the functions it calls. -/
+theorem unpatch_unpatched_noop (s : St) (f : Nat) (h : s.patches f = none) : unpatchValue s f = s := by
+  unfold unpatchValue; simp [h]
+
 /-- no operation changes what `Canceled()` answers for a struct mocker: it stays false -/
 theorem scanceled_never {env : Env} (ops : List Op) (o : Nat) : (run env (init env) ops).scanceled o = false := by
   have key : ∀ (ops : List Op) (s : St), (run env s ops).scanceled = s.scanceled := by
@@ -903,6 +939,11 @@ example : let s := run exEnv (init exEnv) [.keepS 0, .sapply 0 2007 1 none false
 example : let s := run exEnv (init exEnv) [.sapply 0 2007 1 none false, .apply 0 3 2 none]
     s.scache 0 = some 100 ∧ s.cache 100 2007 = some 0 ∧ (s.mockers 0).guard = some 0 ∧ (s.guards 0).applied = true ∧
     s.cache 0 3 = some 1 ∧ (s.mockers 1).canceled = false ∧ (s.mockers 1).guard = some 1 ∧ (s.guards 1).applied = true := by decide
+
+/-- hypotheses of `refused_apply_leaves_pristine`: a re-mock after Reset whose placeholder is refused -/
+example : let env := { exEnv with fixOk := fun _ _ => false }
+    let s := run env (init env) [.apply 0 3 1 none, .reset 0]
+    (doApply env s 0 3 2 (some 0)).2 = some .fixOrigin ∧ (doApply env s 0 3 2 (some 0)).1.text 3 = env.pristine 3 := by decide
 
 example : 13 < exEnv.funcSize (3 % 1000) ∧ Gen.Amd64.checkAlreadyPatch ((exEnv.pristine (3 % 1000)).take 13) = false := by decide
 
